@@ -34,7 +34,9 @@ import (
 	"fmt"
 	"io"
 	"math/bits"
+	"reflect"
 	"sort"
+	"strconv"
 	"sync"
 	"time"
 
@@ -177,51 +179,74 @@ func c43Compose(L int, mask int) []int {
 	return append(out, cur)
 }
 
+// The slurper is inspected through reflection only (no field names): every integer field and the len/cap of every
+// buffer of every [][]byte field are part of the state key, so a refactor of the private bookkeeping is judged by
+// the oracle instead of breaking the build.
+var c43SlScalars, c43SlBufFields = func() (sc []int, bf []int) {
+	t := reflect.TypeOf(LimitedReaderSlurper{})
+	for i := 0; i < t.NumField(); i++ {
+		switch f := t.Field(i); {
+		case f.Type.Kind() >= reflect.Int && f.Type.Kind() <= reflect.Uintptr:
+			sc = append(sc, i)
+		case f.Type == reflect.TypeOf([][]byte(nil)):
+			bf = append(bf, i)
+		}
+	}
+	return
+}()
+
 func c43SlurperCap(s *LimitedReaderSlurper) (total uint64) {
-	for _, b := range s.buffers {
-		total += uint64(cap(b))
+	v := reflect.ValueOf(s).Elem()
+	for _, fi := range c43SlBufFields {
+		f := v.Field(fi)
+		for j := 0; j < f.Len(); j++ {
+			total += uint64(f.Index(j).Cap())
+		}
+	}
+	return
+}
+
+func c43SlurperBufCount(s *LimitedReaderSlurper) (n int) {
+	v := reflect.ValueOf(s).Elem()
+	for _, fi := range c43SlBufFields {
+		n += v.Field(fi).Len()
 	}
 	return
 }
 
 func c43SlurperKey(s *LimitedReaderSlurper) string {
-	var sb bytes.Buffer
-	fmt.Fprintf(&sb, "last=%d rem=%d read=%d max=%d bufs=", s.lastBuffer, s.remainedUnallocatedSpace, s.currentMessageBytesRead, s.currentMessageMaxSize)
-	for _, b := range s.buffers {
-		if b == nil {
-			sb.WriteString("nil,")
+	var buf [160]byte
+	b := buf[:0]
+	v := reflect.ValueOf(s).Elem()
+	for _, fi := range c43SlScalars {
+		f := v.Field(fi)
+		if f.CanInt() {
+			b = strconv.AppendInt(b, f.Int(), 10)
 		} else {
-			fmt.Fprintf(&sb, "%d/%d,", len(b), cap(b))
+			b = strconv.AppendUint(b, f.Uint(), 10)
 		}
+		b = append(b, ' ')
 	}
-	return sb.String()
+	for _, fi := range c43SlBufFields {
+		f := v.Field(fi)
+		b = append(b, '[')
+		for j := 0; j < f.Len(); j++ {
+			e := f.Index(j)
+			if e.IsNil() {
+				b = append(b, "nil,"...)
+				continue
+			}
+			b = strconv.AppendInt(b, int64(e.Len()), 10)
+			b = append(b, '/')
+			b = strconv.AppendInt(b, int64(e.Cap()), 10)
+			b = append(b, ',')
+		}
+		b = append(b, ']')
+	}
+	return string(b)
 }
 
 type c43SlCfg struct{ Base, Max uint64 }
-
-// c43SlK is the complete slurper state as a comparable value (all fields; buffers as len/cap, -1 = nil).
-type c43SlK struct {
-	cfg             int
-	last, nbuf      int
-	rem, read, maxv uint64
-	bufs            [4][2]int
-}
-
-func c43SlurperK(cfg int, s *LimitedReaderSlurper) (k c43SlK, ok bool) {
-	if len(s.buffers) > len(k.bufs) {
-		return k, false
-	}
-	k.cfg, k.last, k.nbuf = cfg, s.lastBuffer, len(s.buffers)
-	k.rem, k.read, k.maxv = s.remainedUnallocatedSpace, s.currentMessageBytesRead, s.currentMessageMaxSize
-	for i, b := range s.buffers {
-		if b == nil {
-			k.bufs[i] = [2]int{-1, -1}
-		} else {
-			k.bufs[i] = [2]int{len(b), cap(b)}
-		}
-	}
-	return k, true
-}
 
 // c43SlCase: one message through a slurper. N < 0: no Reset before the message (fresh from the constructor).
 type c43SlCase struct {
@@ -348,7 +373,6 @@ type c43SlState struct {
 	idx  int
 	rep  c43SlCase
 	key  string
-	k    c43SlK
 	cfgI int
 }
 
@@ -369,7 +393,7 @@ func c43PartA(r *ve.Run) (states int64, transitions int64) {
 	}
 	// ---- phase 1 ----
 	var mu sync.Mutex
-	distinct := map[c43SlK]*c43SlState{}
+	distinct := map[string]*c43SlState{}
 	maxMax := 0
 	for _, c := range cfgs {
 		if int(c.Max) > maxMax {
@@ -396,8 +420,7 @@ func c43PartA(r *ve.Run) (states int64, transitions int64) {
 		comp := c43Compose(L, mask)
 		data := c43Data(L, 0xA0)
 		variants := c43FaultVariants(comp, true)
-		var lastKey c43SlK
-		lastOutcome := ""
+		lastKey, lastOutcome := "", ""
 		for vi, sc := range variants {
 			s := c43SlFresh(cfg, n)
 			outcome, bad := c43SlRun(s, cfg, n, data, sc)
@@ -405,18 +428,13 @@ func c43PartA(r *ve.Run) (states int64, transitions int64) {
 				report("read", c43SlCase{Cfg: cfg, N: n, L: L, Script: sc}, bad)
 				continue
 			}
-			key, kok := c43SlurperK(v[0], s)
-			if !kok {
-				report("read", c43SlCase{Cfg: cfg, N: n, L: L, Script: sc}, fmt.Sprintf("slurper holds %d buffers", len(s.buffers)))
-				continue
-			}
+			key := strconv.Itoa(v[0]) + "|" + c43SlurperKey(s)
 			if key != lastKey || vi == 0 {
 				lastKey = key
 				ord := i*1024 + vi
 				mu.Lock()
 				if st, ok := distinct[key]; !ok || ord < st.idx {
-					distinct[key] = &c43SlState{idx: ord, rep: c43SlCase{Cfg: cfg, N: n, L: L, Script: sc}, k: key,
-						key: fmt.Sprintf("cfg%d|%s", v[0], c43SlurperKey(s)), cfgI: v[0]}
+					distinct[key] = &c43SlState{idx: ord, rep: c43SlCase{Cfg: cfg, N: n, L: L, Script: sc}, key: key, cfgI: v[0]}
 				}
 				mu.Unlock()
 			}
@@ -491,7 +509,7 @@ func c43PartA(r *ve.Run) (states int64, transitions int64) {
 					s := c43SlFresh(cfg, st.rep.N)
 					_ = s.Read(st.rep.Script.reader(d1))
 					if local == 0 {
-						if k := fmt.Sprintf("cfg%d|%s", st.cfgI, c43SlurperKey(s)); k != st.key {
+						if k := strconv.Itoa(st.cfgI) + "|" + c43SlurperKey(s); k != st.key {
 							report("replay", st.rep, "nondeterministic slurper state on replay: "+k+" vs "+st.key)
 							return
 						}
@@ -594,7 +612,7 @@ func c43PartA(r *ve.Run) (states int64, transitions int64) {
 			report("multistep-reset", c43SlCase{Cfg: c.cfg, N: c.n, L: c.L, Script: c43Short(c.sc)}, "max-size message after Reset(0): "+bad)
 			return
 		}
-		r.Class(fmt.Sprintf("a3/%s/%s/bufs%d", outcome, outcome2, len(s.buffers)))
+		r.Class(fmt.Sprintf("a3/%s/%s/bufs%d", outcome, outcome2, c43SlurperBufCount(s)))
 	})
 	r.Set("a_multistep_cases", len(cases))
 	lap("a3")
